@@ -16,12 +16,25 @@ def showR : Except Panic Int → String := showExcept toString
 
 def inDomM (M : Int) : Bool := 2 ≤ M && M < 2 ^ 31
 
-/-- view of an inverse: the predicate of `inv_spec` -/
-def viewInv (M a : Int) : Except Panic Int → String
+/-- Outside the property's domain (`S any`) nothing is pinned, not even model = implementation: the
+    raw field is the constant `ood` and the model's result moves to the view (shown, never compared). -/
+def ood (dom : Bool) (line : String) : String :=
+  if dom then line else
+  match line.splitOn " | V " with
+  | m :: _ => s!"M ood | V {(m.drop 2).toString} | S any"
+  | _ => line
+
+/-- view of an inverse: the predicate of `inv_spec`, for operands coprime to `M` -/
+def viewInv (M a : Int) (r : Except Panic Int) : String :=
+  -- the property speaks about inverses only for operands coprime to `M`
+  if Int.gcd a M ≠ 1 then "any" else
+  match r with
   | .error e => e.toString
   | .ok r => if isInvOf M a r then "ok" else "bad"
 
-def viewDiv (M x y : Int) : Except Panic Int → String
+def viewDiv (M x y : Int) (r : Except Panic Int) : String :=
+  if Int.gcd y M ≠ 1 then "any" else
+  match r with
   | .error e => e.toString
   | .ok z => if isQuotOf M x y z then "ok" else "bad"
 
@@ -32,7 +45,7 @@ def handle (line : String) : String :=
   match op, parseInts? rest with
   | "new", some [M, v] =>
     let dom := inDomM M && i64.fits v
-    answer (showR (new M v)) (if dom then toString (specNew M v) else "any")
+    ood dom (answer (showR (new M v)) (if dom then toString (specNew M v) else "any"))
   | "pair", some [M, a, b] =>
     let dom := inDomM M && i64.fits a && i64.fits b
     match new M a, new M b with
@@ -44,11 +57,11 @@ def handle (line : String) : String :=
       let e := showBool (eq x y)
       let m := s!"add={showR rAdd} sub={showR rSub} mul={showR rMul} div={showR rDiv} eq={e}"
       let v := s!"add={showR rAdd} sub={showR rSub} mul={showR rMul} div={viewDiv M x y rDiv} eq={e}"
-      let s := s!"add={specAdd M a b} sub={specSub M a b} mul={specMul M a b} div=ok eq={showBool (decide (red M a = red M b))}"
-      answer3 m v (if dom then s else "any")
+      let s := s!"add={specAdd M a b} sub={specSub M a b} mul={specMul M a b} div={if Int.gcd b M ≠ 1 then "any" else "ok"} eq={showBool (decide (red M a = red M b))}"
+      ood dom (answer3 m v (if dom then s else "any"))
     | rx, ry =>
       let m := s!"operand:{showR rx}:{showR ry}"
-      answer3 m m (if dom then "no-panic" else "any")
+      ood dom (answer3 m m (if dom then "no-panic" else "any"))
   | "un", some [M, a] =>
     let dom := inDomM M && i64.fits a
     match new M a with
@@ -59,27 +72,31 @@ def handle (line : String) : String :=
       let m := s!"neg={showR rNeg} inv={showR rInv} fmt={f}/{f}"
       let v := s!"neg={showR rNeg} inv={viewInv M x rInv} fmt={f}/{f}"
       let sf := toString (red M a).toNat
-      let s := s!"neg={specNeg M a} inv=ok fmt={sf}/{sf}"
-      answer3 m v (if dom then s else "any")
+      let s := s!"neg={specNeg M a} inv={if Int.gcd a M ≠ 1 then "any" else "ok"} fmt={sf}/{sf}"
+      ood dom (answer3 m v (if dom then s else "any"))
     | rx =>
       let m := s!"operand:{showR rx}"
-      answer3 m m (if dom then "no-panic" else "any")
+      ood dom (answer3 m m (if dom then "no-panic" else "any"))
   | "pow", some [M, a, d] =>
     let dom := inDomM M && i64.fits a && u64.fits d
     match new M a with
     | .ok x =>
-      answer (showR (pow M x d.toNat)) (if dom then toString (specPow M a d.toNat) else "any")
+      ood dom (answer (showR (pow M x d.toNat)) (if dom then toString (specPow M a d.toNat) else "any"))
     | rx =>
       let m := s!"operand:{showR rx}"
-      answer3 m m (if dom then "no-panic" else "any")
+      ood dom (answer3 m m (if dom then "no-panic" else "any"))
   | "io", some [M, v] =>
     let dom := inDomM M && i64.fits v
     let w := match new M v with
       | .ok x => render x
       | .error e => e.toString
-    let m := s!"w={w} r={showR (readTok M v)}"
+    -- rt: the written text read back as a token (its value is the canonical representative)
+    let rt := match new M v with
+      | .ok x => showR (readTok M x)
+      | .error e => e.toString
+    let m := s!"w={w} r={showR (readTok M v)} rt={rt}"
     let sv := toString (red M v).toNat
-    answer m (if dom then s!"w={sv} r={sv}" else "any")
+    ood dom (answer m (if dom then s!"w={sv} r={sv} rt={sv}" else "any"))
   | _, _ => badLine line
 
 def main : IO Unit := driverMain handle
